@@ -124,7 +124,7 @@ def r13a(ctx, P):
                        "accept closure never rejects on the cursor comparison while its result gates aggregation" if bad is None else
                        "the accept closure returns false at %s on the cursor-key comparison and the executor called at %s collects "
                        "only accepted documents into the aggregation collector" % (bad.loc(), site.loc()), site.loc())
-    ctx.floor(rid + ".executors", m, 2, "top-k executor call sites in the reader")
+    ctx.floor(rid + ".executors", m, 1, "top-k executor call sites in the reader")
 
 
 def _is_none(srcs):
@@ -152,8 +152,9 @@ def _all_locals(f, operand):
     return out
 
 
-def _is_error_exit_test(f, b):
-    """`?` tests and early-return tests: one successor runs straight (drops/gotos/error construction only) to the return."""
+def _is_error_exit_test(f, b, not_defining=()):
+    """`?` tests and early-return tests: one successor runs straight (drops/gotos/error construction only) to the return.
+    not_defining: locals of interest — a path that assigns one of them is the computation itself, not an early exit."""
     t = f.blocks[b]["term"]
     if any("QuestionMark" in m for m in t.get("macros", [])):
         return True
@@ -165,6 +166,9 @@ def _is_error_exit_test(f, b):
         while x is not None and x not in seen and steps < 400:
             seen.add(x)
             steps += 1
+            if not_defining and any(st_["k"] == "assign" and st_["dst"]["l"] in not_defining for st_ in f.blocks[x]["stmts"]):
+                straight = False
+                break
             tx = f.blocks[x]["term"]
             if tx["k"] == "return":
                 break
